@@ -22,6 +22,18 @@ def axis_aligned_bounding_box(P):
     return np.min(P, axis=0), np.max(P, axis=0)
 
 
+def _sqrt_one_minus_squares(unit_vector):
+    """Compute sqrt(1 - v_i^2) for each component of a unit vector.
+
+    Uses the other two components, which avoids the cancellation (and
+    negative radicands) of 1 - v_i^2 when a component is close to +-1.
+    """
+    squares = unit_vector * unit_vector
+    return np.sqrt(np.array([squares[1] + squares[2],
+                             squares[0] + squares[2],
+                             squares[0] + squares[1]]))
+
+
 def sphere_aabb(center, radius):
     """Compute axis-aligned bounding box of sphere.
 
@@ -92,7 +104,7 @@ def cylinder_aabb(cylinder2origin, radius, length):
     # AABB of a cylinder is the same as the AABB of its caps,
     # see https://iquilezles.org/articles/diskbbox/
     axis = cylinder2origin[:3, 2]
-    extent = 0.5 * length * np.abs(axis) + radius * np.sqrt(1.0 - axis * axis)
+    extent = 0.5 * length * np.abs(axis) + radius * _sqrt_one_minus_squares(axis)
     return cylinder2origin[:3, 3] - extent, cylinder2origin[:3, 3] + extent
 
 
@@ -170,7 +182,7 @@ def disk_aabb(center, radius, normal):
     maxs : array, shape (3,)
         Maximum coordinates.
     """
-    e = radius * np.sqrt(1.0 - normal * normal)
+    e = radius * _sqrt_one_minus_squares(normal)
     return center - e, center + e
 
 
@@ -199,7 +211,7 @@ def cone_aabb(cone2origin, radius, height):
     pa = cone2origin[:3, 3]
     axis = cone2origin[:3, 2]
     pb = pa + height * axis
-    e = np.sqrt(np.maximum(0.0, 1.0 - axis * axis))
+    e = _sqrt_one_minus_squares(axis)
     return np.minimum(pa - e * radius, pb), np.maximum(pa + e * radius, pb)
 
 
